@@ -884,9 +884,14 @@ pub fn run(_params: &Params) {
     if let Some(n) = &opt_nonce {
       ko = ko.nonce(n.clone());
     }
-    let opt_aud: Option<String> = match ctx::weighted(&[5, 1, 1]) {
+    let opt_aud: Option<String> = match ctx::weighted(&[5, 1, 1, 1]) {
       0 => Some(aud.clone()),
       1 => Some("https://other-verifier.example".to_owned()),
+      3 => {
+        // another STRING that a URL parser reads as the same URL: aud is compared as the string it is
+        ctx::stat("probe.kb_aud_url_twin");
+        Some(["HTTPS://verifier.example", "https://verifier.example:443", "https://verifier.example/", "https://Verifier.Example", "https://verifier.example/a/.."][ctx::choose(5)].to_owned())
+      }
       _ => None,
     };
     if let Some(a) = &opt_aud {
